@@ -8,5 +8,18 @@ CHECKS["C01"] = dict(
     note=_TB + "; Sparse/Jacobian/Hessian/ConvolveND outside (not constructible on the NumPy backend)",
     technique="symbolic execution of the Python source (SymArray payloads) + z3 validity queries on term-DAG equalities; "
               "counterexamples replayed on float NumPy")
-for _p in ["C02","C03","C04","C05","C06","C07","C08","C09","C10","C11","C12","C13","C14","C15","C16","C17","C18","C19","C20"]:
+CHECKS["C02"] = dict(
+    text="bounded symbolic execution of the real transpose/adjoint rewriting rules, Transpose/Adjoint wrappers and every explicit / generic "
+         "_rmatmat on symbolic real and complex payloads (incl. true SelfAdjoint/PSD declarations and same-object A^T A patterns); z3 proves "
+         "A.T, A.H, all .T/.H towers up to depth 3 and left products equal to M^T, conj(M)^T, X M for all payload values",
+    note=_TB + "; generic _rmatmat goes through the harness' linear_transpose (its definition), so only the plumbing around it is verified there",
+    technique="symbolic execution of the Python source + z3 validity queries on term-DAG equalities; counterexamples replayed on float NumPy")
+CHECKS["C03"] = dict(
+    text="every overload and functional combinator (+, -, unary -, scalar * and / on either side with python / 0-d scalars of every dtype, @, "
+         "kron, kronsum, block_diag, sum(), lazify/densify/no_dispatch, nested re-association) executed on all ordered pairs of 20 operand "
+         "kinds with symbolic payloads and symbolic scalars; z3 proves the result represents the un-simplified matrix expression for all "
+         "values; every shape-mismatched pair must raise",
+    note=_TB + "; shapes are enumerated (<= 3), not symbolic",
+    technique="symbolic execution of the Python source + z3 validity queries on term-DAG equalities; counterexamples replayed on float NumPy")
+for _p in ["C04","C05","C06","C07","C08","C09","C10","C11","C12","C13","C14","C15","C16","C17","C18","C19","C20"]:
     NA[_p] = "check under construction in this session (not yet registered); see DESIGN.md section 5 for the plan"
